@@ -71,9 +71,14 @@ def main():
         # 2. builds ---------------------------------------------------------------------------
         driver = fmlib.build_driver()
         variants = suite_variants(suite, tier)
-        model_out, rc, err = fmlib.run_parallel(driver, lines)
-        if len(model_out) != len(lines):
-            raise fmlib.BuildError("model driver produced %d results for %d inputs: %s" % (len(model_out), len(lines), err[-500:]))
+        has_dflt = any(":dflt" in l for l in lines)
+        model_by_be = {}
+        for be in (("std", "ab") if has_dflt else ("std",)):
+            mo, rc, err = fmlib.run_parallel(driver, [l.replace(":dflt", ":" + be) for l in lines])
+            if len(mo) != len(lines):
+                raise fmlib.BuildError("model driver produced %d results for %d inputs: %s" % (len(mo), len(lines), err[-500:]))
+            model_by_be[be] = mo
+        model_out = model_by_be["std"]
         legs = []
         for v in variants:
             exe, info = fmlib.build_harness(v)
@@ -111,8 +116,9 @@ def main():
             io = out[i]
             if io == "skip" or io == "unknown": continue
             evals += 1
-            if io != mo:
-                diverge.append((line, v.name, io, mo))
+            mo_leg = model_by_be.get(v.backend, model_out)[i] if has_dflt else mo
+            if io != mo_leg:
+                diverge.append((line, v.name, io, mo_leg))
             r = suites.parse_out(io)
             if r is None:
                 oracle_fail.append((line, v.name, io, "the call did not return normally (%s)" % io))
@@ -120,6 +126,18 @@ def main():
                 why = suite.oracle(fn, tag, a, r)
                 if why: oracle_fail.append((line, v.name, io, why))
     ub_reports = [r for v, out, info, reports in legs for r in reports]
+    # relations between results of different inputs (monotonicity, symmetry, periodicity, type agreement)
+    post = getattr(suite, "post", None)
+    if post:
+        for v, out, info, reports in legs:
+            if v.san: continue
+            res = {}
+            for i, line in enumerate(lines):
+                if i in out:
+                    r = suites.parse_out(out[i])
+                    if r is not None: res[line] = r
+            for line, why in post(res)[:50]:
+                oracle_fail.append((line, v.name, "ok %s" % res.get(line), why))
 
     # 4. Lean theorems ------------------------------------------------------------------------
     lean = lean_obligations(suite, tier)
